@@ -75,6 +75,19 @@ CHECKS = {
             'EOFError/UnpicklingError (checked at every byte of the swept files); a killed writer leaves a byte prefix; '
             'unreadable content limited to the exception classes pickle documents or a non-Env object.',
             '5 (C14)'),
+    'C19': ('Lean 4 proof: the command loop as a fold with early stop; closed form of the run result (status, return '
+            'codes, both captured streams) in terms of the prefix of commands actually run; sanitize_filename is the '
+            'identity on accepted names + differential correspondence with real subprocesses through RunTask.do and '
+            'the real Scheduler',
+            'For every list of command lines and every behaviour of each command (exit code, output on both streams, '
+            'or cannot be started): done_iff_all_zero, codes_are_prefix, not_run_after_failure (commands after the '
+            'first failure have no influence), spawn_error_fails_task_not_run, output_in_order, status_total; '
+            'outdir_injective and bad_name_fails_task for every task name. Tied to run.py by running generated '
+            'command lists as real /bin/sh processes (missing / non-executable programs included) through RunTask.do '
+            'and through Scheduler+QueueScheduling, comparing status, return codes, directory and file contents.',
+            'Trusted: Lean kernel + standard axioms; process spawning, fd inheritance and shlex.quote are exercised, '
+            'not modelled; the worker\'s exception-to-FAILED mapping is part of the scheduler model (C02).',
+            '5 (C19)'),
 }
 
 NOT_YET = 'check not built yet in this round (planned in DESIGN.md section 5); no claim is made'
